@@ -97,7 +97,7 @@ def make_opcond(case):
     return OperatingConditions(**kw)
 
 
-def make_snowing(case, k=None):
+def make_snowing(case, k=None, opcond=None):
     """`k`: a heat-transfer dict supplied (and possibly shared) by the caller; its "s0" is set from the case"""
     from ethz_snow.snowing import Snowing
 
@@ -109,7 +109,7 @@ def make_snowing(case, k=None):
             k = {"int": 0, "ext": 0, "s0": case["K_shelf"]}
         else:
             k["s0"] = case["K_shelf"]
-        S = Snowing(k=k, opcond=make_opcond(case), configPath=path)
+        S = Snowing(k=k, opcond=(opcond if opcond is not None else make_opcond(case)), configPath=path)
     finally:
         os.unlink(path)
     return S
@@ -198,10 +198,10 @@ def run_real(case):
     return obs
 
 
-def run_real_full(case, k=None):
+def run_real_full(case, k=None, opcond=None):
     """Real run returning numpy arrays (for the predicates): dict or {'raise':..}."""
     try:
-        S = make_snowing(case, k)
+        S = make_snowing(case, k, opcond)
     except Exception as e:
         return {"raise": core.exc_class(e), "stage": "init"}
     seed = int(case.get("seed", 0))
@@ -479,7 +479,7 @@ def _cache_path(case):
     h = hashlib.sha256()
     h.update(core.repo_fingerprint().encode())
     h.update(json.dumps(case, sort_keys=True, default=str).encode())
-    h.update(b"obs-v6")
+    h.update(b"obs-v8")
     d = core.VERIF / ".cache" / "s2d"
     d.mkdir(parents=True, exist_ok=True)
     return d / (h.hexdigest()[:24] + ".json.gz")
@@ -791,6 +791,18 @@ def summarize(case, res):
         n = len(res["time"])
         obs = {"raise": None, "stats": [None if x is None else float(x) for x in res["stats"]], "n": n,
                "time": res["time"].tolist(), "shelf": res["shelf"].tolist(), "dt": dt, "dim": dim}
+        nbad = int((~np.isfinite(res["temp"])).sum() + (~np.isfinite(res["ice"])).sum())
+        obs["t_tot"] = float(case["t_tot"])
+        if nbad:
+            # whatever a run REPORTS must be finite; nothing else can be evaluated on such fields
+            bad_rows = np.nonzero(~np.isfinite(res["temp"].reshape(n, -1)).all(axis=1))[0]
+            obs["nonfinite"] = {"count": nbad, "first_row": int(bad_rows[0]) if len(bad_rows) else None}
+            obs["bounds"] = {"finite": False}
+            obs["iSaveEnd"] = 0
+            obs["rows"] = []
+            obs["temp"] = []
+            obs["ice"] = []
+            return obs
         if dim != "homogeneous":
             es = energy_series(case, res, dt)
             inuc = es["inuc"]
@@ -800,7 +812,11 @@ def summarize(case, res):
             obs["energy"] = {"ratio": ratio, "row": k, "dH": float(es["dH"][k]), "Q": float(es["Q"][k]),
                              "Qabs": float(es["Qabs"][k]), "grid": float(es["grid"][k]),
                              "final_dH_over_Q": float(es["dH"][-1] / es["Q"][-1]) if es["Q"][-1] != 0 else None,
-                             "jump_dH": float(es["dH"][inuc] - es["dH"][inuc - 1]) if 0 < inuc < n else 0.0,
+                             # the row before the post-nucleation row is the field AT nucleation only if that step was saved
+                             # (same time stamp); with thinned-out cooling rows it may be an earlier step
+                             "jump_dH": (float(es["dH"][inuc] - es["dH"][inuc - 1])
+                                         if 0 < inuc < n and abs(time_s[inuc] - time_s[inuc - 1]) <= 1e-9 * max(1.0, time_s[inuc])
+                                         else 0.0),
                              "jump_scale": float(es["Qabs"][-1]),
                              "strided": strided}
             obs["inuc"] = inuc
@@ -911,6 +927,12 @@ def standard_cases(tier, seed=0):
         _base("jacket", 0.015, 0.03, 1000, 350, solution={"T_eq": 0.8}),
         # coarse-grid Biot number K_shelf*dz/lambda > 1 in 1D (the 2D sibling is the 20 x 60 mm case above)
         _base("shelf", 0.02, 0.06, 2000, 600, dim="spatial_1D"),
+        # long processes: > 10 000 steps in total (cooling rows thinned out), < 10 000 after nucleation
+        _base("shelf", 0.01, 0.04, 1000, 542, dim="spatial_1D", rate=0.1, stop=-50),
+        _base("shelf", 0.01, 0.04, 1000, 600, rate=0.1, stop=-50),
+        # melt-back: an early short vacuum freezes the top of a warm tall fill, the ice melts again
+        _base("VISF", 0.03, 0.06, 300, 3000, dim="spatial_1D", start=20, stop=-60, rate=0.5,
+              visf=dict(t_vac_start=0.01, t_vac_duration=0.06)),
     ]
     n_rand = 3 if tier == "quick" else 14
     if tier != "quick":
